@@ -141,7 +141,7 @@ Definition close_cont (s : state) : state :=
 Definition close_trigger (s : state) (t : nat) : state :=
   match st_fsm s with
   | Closed =>       (* internal transition: no callbacks *)
-    finish_call (close_cont (release s)) t CClose ROk
+    finish_call (close_cont (publish (release s) PEndAll)) t CClose ROk
   | Finished =>
     match runt s with
     | Some _ => set_pc s t CClose C_WaitRunTask
@@ -279,7 +279,8 @@ Definition do_step (s : state) (t : nat) : state :=
       | Some _ => s
       end
     | C_G3 => set_pc (change_state_hook s) t c C_G4
-    | C_G4 => finish_call (close_cont (release s)) t c ROk
+    (* Imp.aclose: the topics created again since the first pubsub.close() are ended before the return *)
+    | C_G4 => finish_call (close_cont (publish (release s) PEndAll)) t c ROk
     | Sig_G => finish_call s t c ROk
     end
   end.
